@@ -6,13 +6,16 @@ ID = "C37"
 LEVEL = "exploration"
 RULE = ("abstract, explicitly typed programs of vf/gen/c3gen.py rendered as C3 and as C: E1 every operator (10 arithmetic, 6 comparisons, "
         "unary minus, 5 shorthand assignments) in each of the 10 integer type names, float/double arithmetic, bool logic, constants; CAST "
-        "every explicit cast pair over 12 types and every implicit conversion at return/assignment/argument; W mixed operand types "
-        "(coercion table) and narrow intermediates; ASSOC unparenthesised chains; E2 depth-2 expressions; COND short-circuit conditions "
-        "of depth <= 2 as value / branch / loop condition, with side-effecting right operands; S statement skeletons of nesting depth <= 2 "
-        "over if, if/else, while, for, switch, return, calls; A aggregates (struct fields, nested structs, arrays, initialisers, pointers, "
-        "sizeof); each function is called on the product of boundary values of its parameter types (cap 64) or on {-7..7}^2; the gcc "
-        "rendering decides the expected return value and scalar/array globals; calls with a UBSan report, a signal or a narrow-type "
-        "overflow marker are discarded; distinct non-trivial = distinct (family, feature class, returned value)")
+        "every explicit cast pair over 12 types and every implicit conversion at return/assignment/argument; CASTCHAIN two casts; W mixed "
+        "operand types (coercion table) and narrow intermediates; LIT literal operands; ASSOC unparenthesised chains; E2/E2F/E2M/E3 depth-2 "
+        "expressions (one type: all operator pairs; three types: the coercions inserted; comparison / unary / cast at the root); COND "
+        "short-circuit conditions of depth <= 2 as value / branch / loop condition, with side-effecting right operands; S statement "
+        "skeletons of nesting depth <= 2 over if, if/else, while, for, switch, return, calls; A aggregates (struct fields, nested structs, "
+        "arrays, initialisers, pointers, sizeof); X shorthand assignment through every lvalue kind, bool storage, typedefs, literal "
+        "conditions, scoping; CONST constant expressions of depth <= 2 in const definitions and global initialisers; MOD two modules; each "
+        "function is called on the product of boundary values of its parameter types (cap 64) or on {-7..7}^2; the gcc rendering decides "
+        "the expected return value and scalar/array globals; calls with undefined behaviour (UBSan trap, signal, narrow-type overflow "
+        "marker) are discarded; distinct non-trivial = distinct (family, feature class, returned value)")
 ASSUMPTIONS = ["gcc 12.2 -O0 -fsanitize=undefined -fsanitize-undefined-trap-on-error on x86-64 is the conforming C compiler (arithmetic >> on signed, "
                "modulo narrowing casts); trap mode because UBSan's reporting runtime mentions each source location only once per process",
                "C3's type sizes are those of ppci's x86_64 description: int 32 bits, byte 8, bool stored as int, pointers 64 bits",
@@ -138,11 +141,12 @@ def const_locus(case):
         probe = c3gen.const_cases((node[0], lit(a), lit(b)), kind == "global-init")[-1]
         sts = {}
         compile_batch([probe], [0], sts)
+        name = {"+": "add", "-": "sub", "*": "mul", "/": "div", "%": "mod"}[node[0]]
         if sts[0][0] != "ok":
-            return "CONST/%s/operator%s" % (kind, node[0])
+            return "CONST/%s/%s" % (kind, name)
         r = run_ppci(sts[0][1], 0, probe, [0])
         if r[0] != "ok" or r[1] != want:
-            return "CONST/%s/operator%s" % (kind, node[0])
+            return "CONST/%s/%s" % (kind, name)
     return "CONST/%s/composition" % kind
 
 
@@ -192,7 +196,7 @@ def compare(p, case, k, gres, st, order):
         runs = [vi for vi, g in sorted(gres.items()) if g[0] == "ok"]
         if runs:
             vec = case["vectors"][runs[0]]
-            p.violation(LazyKey(case) + "/frontend-crash", "%s: c3_to_ir raises %s (%s) instead of compiling this program; gcc compiles and runs the C rendering"
+            p.violation(LazyKey(case) + ("/frontend-crash/" + type(st[1]).__name__), "%s: c3_to_ir raises %s (%s) instead of compiling this program; gcc compiles and runs the C rendering"
                         % (case["c3"].strip().replace("\n", " "), type(st[1]).__name__, exc_key("", st[1]).split("/", 2)[2]), witness(case, vec), order * 100)
         return
     m = st[1]
@@ -204,12 +208,16 @@ def compare(p, case, k, gres, st, order):
             continue
         vec = case["vectors"][vi]
         r = run_ppci(m, k, case, vec)
-        if r[0] in ("horizon", "unsupported"):
-            p.count("unclassified_" + r[0])
+        if r[0] == "unsupported":
+            p.count("unclassified_unsupported")
             continue
         w = witness(case, vec)
         o = order * 100 + vi
         key = LazyKey(case)
+        if r[0] == "horizon":
+            # every generated loop has a trip count <= 8 (x 4 nested) and recursion depth <= 8: 40000 executed blocks mean divergence
+            p.violation(key + "/diverges", "%s f%r: gcc returns %r for the C rendering, ppci's IR is still running after 40000 blocks (%s)" % (text, tuple(vec), g[1], r[1]), w, o)
+            continue
         if r[0] == "undef":
             p.violation(key + "/ir-undefined", "%s f%r: gcc returns %r for the C rendering, ppci's IR has no defined result: %s" % (text, tuple(vec), g[1], r[1]), w, o)
             continue
@@ -245,8 +253,11 @@ def gcc_run(cases, d, tag, batch=150):
                 h = len(part) // 2
                 todo += [part[:h], part[h:]]
             continue
-        r = subprocess.run([exe], stdout=subprocess.PIPE, stderr=subprocess.DEVNULL, text=True, errors="replace")
-        res = c3gen.parse_driver_output(r.stdout)
+        try:
+            r = subprocess.run([exe], stdout=subprocess.PIPE, stderr=subprocess.DEVNULL, text=True, errors="replace", timeout=600)
+            res = c3gen.parse_driver_output(r.stdout)
+        except subprocess.TimeoutExpired:
+            continue  # (safety net only; loops are bounded) the batch stays None -> run() stops with a harness error, never a verdict
         for k in part:
             got = res.get(k, {})
             # a vector without a line (the process died) is a discarded call, never an expected value
